@@ -16,6 +16,12 @@ Streams
   G  ONE resolver callable shared by >= 2 fields (same type / different types) whose arguments have equal names but
      different nullability / defaults / extras, in every order of the types (fields)                  -> same verdict and
      report in every order, every offending field reported (expectation from the calling convention)
+  H  derived schemas: validate(source) -> clone() / clone().clone() / clone-based transform / extend_schema -> validate the
+     DERIVED schema: same verdict and rule multiset as the source (extend: as the same schema built from scratch), the
+     source unchanged; edits through public setters (field.arguments, type.fields, object.interfaces, union.types,
+     enum.values) between two validations + a cache reset (replace request / fresh Schema over the same objects): the
+     second verdict is that of the CURRENT description, undo -> valid again. Interface fields there take enum /
+     input-object / custom-scalar typed arguments. Verdicts of kept schema objects are repeated at the end (ctx.later).
 Every schema sent to the model is the DUMP OF THE LIVE OBJECT (`dump_schema(..., include_builtin, resolvers)`).
 """
 import copy
@@ -1363,6 +1369,282 @@ def stream_shared_resolvers(ctx, batch):
                          {"how": "shared-order", "desc_a": ref[2], "desc_b": d, "verdict_a": ref[0], "verdict_b": cur, "info": info})
     ctx.extra["shared_resolver_cases"] = done
 
+
+# ---- H: derived schemas (clone / transform / extend) and edits through public setters ------------------
+
+def add_arg_cluster(d):
+    """Interface whose field takes enum / input-object / custom-scalar typed arguments, two implementers."""
+    d["types"] += [
+        {"kind": "enum", "name": "Unit", "desc": None, "values": [{"name": "M", "deprecated": None, "desc": None}, {"name": "FT", "deprecated": None, "desc": None}]},
+        {"kind": "input", "name": "AreaOpts", "desc": None, "fields": [_a("round", ("named", "Boolean")), _a("unit", ("named", "Unit"))]},
+        {"kind": "scalar", "name": "Precise", "desc": None},
+    ]
+
+    def area():
+        return _f("area", ("named", "Float"), [_a("unit", ("nonNull", ("named", "Unit"))), _a("opts", ("named", "AreaOpts")),
+                                                  _a("p", ("list", ("named", "Precise")))])
+    d["types"].append({"kind": "interface", "name": "Shape", "desc": None, "fields": [area(), _f("name", ("named", "String"))]})
+    for nm in ("Square", "Circle"):
+        d["types"].append({"kind": "object", "name": nm, "desc": None, "interfaces": ["Shape"],
+                           "fields": [area(), _f("name", ("named", "String")), _f("side", ("named", "Precise"))]})
+    d["types"].append({"kind": "union", "name": "AnyShape", "desc": None, "members": ["Square", "Circle"]})
+    q = gs.desc_type(d, "Query")
+    q["fields"] += [_f("shape", ("named", "Shape"), [_a("unit", ("named", "Unit"))]), _f("anyShape", ("named", "AnyShape"))]
+    return d
+
+
+EXTENSION_SDL = """
+extend type Query { extra(unit: Unit = M, opts: AreaOpts): Triangle }
+type Triangle implements Shape { area(unit: Unit!, opts: AreaOpts, p: [Precise]): Float name: String h: Precise }
+extend enum Unit { KM }
+extend union AnyShape = Triangle
+"""
+
+
+def verdict_key(verdict, errs):
+    return [verdict, sorted(Counter(r for r, _ in errs).items())]
+
+
+def compare_derived(ctx, batch, what, source_key, derived, labels, info, desc):
+    """A derived schema must get the verdict (and rule multiset) of the schema it was derived from / of the
+    same schema built from scratch; its own dump goes to the model."""
+    v, e = check_schema(ctx, batch, derived, labels, "derived:" + what, info, desc=desc)
+    key = verdict_key(v, e)
+    if key != source_key:
+        ctx.fail("derived-schema-verdict-differs:%s:%s" % (what, "+".join(sorted(set(r for r, _ in key[1]) ^ set(r for r, _ in source_key[1]))) or "verdict"),
+                 "%s of a schema is validated differently from the schema it was derived from" % what,
+                 {"how": "derived", "what": what, "desc": desc, "builder": info.get("builder"), "source": source_key, "derived": key})
+    return key
+
+
+def derive(what, s):
+    from py_gql.schema.transforms import transform_schema
+    from py_gql.schema.schema_visitor import SchemaVisitor
+    from py_gql.sdl import extend_schema
+    if what == "clone":
+        return s.clone()
+    if what == "clone-of-clone":
+        return s.clone().clone()
+    if what == "transform":
+        return SchemaVisitor().on_schema(s.clone())       # transform_schema without its own validate()
+    if what == "extend":
+        return extend_schema(s, EXTENSION_SDL, strict=False)
+    raise ValueError(what)
+
+
+def stream_derived(ctx, batch):
+    from py_gql import build_schema
+    from py_gql.exc import GraphQLError
+    rng = ctx.rng
+    done = 0
+    for i in range(ctx.n(14, 100)):
+        if ctx.time_left() < 15:
+            break
+        base = add_arg_cluster(base_schema(rng, rng.choice([0, 0, 1]), cluster=rng.random() < 0.5))
+        labels, code_only = [], False
+        if rng.random() < 0.4:
+            base, labels, code_only = apply_injections(rng, base, 1, allowed=[x for x in INJECTIONS if not x.name.startswith("res_")
+                                                                               and x.name not in ("no_query", "root_not_object")])
+        for builder in (build_code, build_sdl):
+            if builder is build_sdl and code_only:
+                continue
+            d0 = add_resolvers(rng, copy.deepcopy(base), p=0.2) if builder is build_code else strip_resolvers(base)
+            s = try_build(ctx, builder, d0)
+            if s is None:
+                continue
+            # 1st validation of the source (fills whatever the library memoises), kept for the end of the run
+            v0, e0 = check_schema(ctx, batch, s, labels, builder.__name__[6:], {"stream": "derived-source"}, desc=d0)
+            src_key = verdict_key(v0, e0)
+            try:
+                s.validate()
+            except GraphQLError:
+                pass
+            ctx.later("validate_schema(source)", (lambda s=s: verdict_key(*real_validate(s))), src_key,
+                      {"how": "later", "desc": d0, "builder": builder.__name__})
+            for what in ("clone", "transform", "clone-of-clone", "extend"):
+                info = {"stream": "derived", "what": what, "builder": builder.__name__}
+                try:
+                    der = derive(what, s)
+                except GraphQLError as exc:
+                    ctx.stat("derive-refused:%s:%s" % (what, type(exc).__name__))
+                    continue
+                except Exception as exc:  # noqa   (C14's subject; not a C13 outcome)
+                    ctx.stat("derive-internal:%s:%s" % (what, type(exc).__name__))
+                    continue
+                done += 1
+                if what == "extend":
+                    # scratch = the printed source + the same extension document, built in one go
+                    exp_key = None
+                    if builder is build_sdl:
+                        try:
+                            scratch = build_schema(gs.to_sdl(d0, descriptions=False) + EXTENSION_SDL)
+                            exp_key = verdict_key(*real_validate(scratch))
+                        except (GraphQLError, RecursionError, ValueError, TypeError):
+                            exp_key = None
+                    v, e = check_schema(ctx, batch, der, labels, "derived:extend", info, desc=d0)
+                    key = verdict_key(v, e)
+                    if exp_key is not None and key != exp_key:
+                        ctx.fail("derived-schema-verdict-differs:extend", "an extended schema is validated differently from the same schema built from scratch",
+                                 {"how": "derived", "what": "extend", "desc": d0, "builder": builder.__name__, "source": exp_key, "derived": key})
+                else:
+                    key = compare_derived(ctx, batch, what, src_key, der, labels, info, d0)
+                ctx.later("validate_schema(%s)" % what, (lambda der=der: verdict_key(*real_validate(der))), key,
+                          {"how": "later", "what": what, "desc": d0, "builder": builder.__name__})
+                # the source must be untouched by the derivation
+                again = verdict_key(*real_validate(s))
+                if again != src_key:
+                    ctx.fail("source-verdict-changed-by:%s" % what, "deriving a schema changed the verdict of the source schema",
+                             {"how": "derived", "what": what + ":source", "desc": d0, "builder": builder.__name__, "source": src_key, "derived": again})
+    ctx.extra["derived_cases"] = done
+
+
+def _impl_positions(s):
+    """(object type, interface, object field, interface field) for interface fields with arguments."""
+    from py_gql.schema import ObjectType, InterfaceType
+    out = []
+    for t in s.types.values():
+        if isinstance(t, ObjectType) and not t.name.startswith("__"):
+            for i in t.interfaces:
+                if isinstance(i, InterfaceType):
+                    for f in i.fields:
+                        of = t.field_map.get(f.name)
+                        if of is not None and f.arguments:
+                            out.append((t, i, of, f))
+    return out
+
+
+def setter_edits(rng, s):
+    """[(name, expected rule or None, apply(), undo())] — edits through PUBLIC setters of the live type objects."""
+    from py_gql.schema import Argument, Field, Int, NonNullType, UnionType, EnumType, ObjectType, InterfaceType
+    edits = []
+    pos = _impl_positions(s)
+    rng.shuffle(pos)
+    for t, i, of, f in pos[:3]:
+        old = list(of.arguments)
+        named = [a for a in old if f.argument_map.get(a.name) is not None] if False else [a for a in old if any(b.name == a.name for b in f.arguments)]
+        if named:
+            a = rng.choice(named)
+            edits.append(("args_drop", "ifaceArgMissing", (lambda of=of, old=old, a=a: setattr(of, "arguments", [x for x in old if x is not a])),
+                          (lambda of=of, old=old: setattr(of, "arguments", old))))
+            other = Int if getattr(a.type, "name", None) != "Int" else s.types["String"]
+            edits.append(("args_retype", "ifaceArgType",
+                          (lambda of=of, old=old, a=a, other=other: setattr(of, "arguments", [Argument(a.name, other) if x is a else x for x in old])),
+                          (lambda of=of, old=old: setattr(of, "arguments", old))))
+            edits.append(("args_copy", None,
+                          (lambda of=of, old=old: setattr(of, "arguments", [Argument(x.name, x.type, **({"default_value": x.default_value} if x.has_default_value else {})) for x in old])),
+                          (lambda of=of, old=old: setattr(of, "arguments", old))))
+        edits.append(("args_extra_required", "extraRequiredArg",
+                      (lambda of=of, old=old: setattr(of, "arguments", old + [Argument("zz_req", NonNullType(Int))])),
+                      (lambda of=of, old=old: setattr(of, "arguments", old))))
+        iold = list(f.arguments)
+        edits.append(("iface_args_add", "ifaceArgMissing",
+                      (lambda f=f, iold=iold: setattr(f, "arguments", iold + [Argument("zz_new", Int)])),
+                      (lambda f=f, iold=iold: setattr(f, "arguments", iold))))
+        fold = list(t.fields)
+        edits.append(("fields_drop", "ifaceFieldMissing",
+                      (lambda t=t, fold=fold, of=of: setattr(t, "fields", [x for x in fold if x is not of] + [Field("zz_keep", Int)])),
+                      (lambda t=t, fold=fold: setattr(t, "fields", fold))))
+        ifs = list(t.interfaces)
+        edits.append(("interfaces_clear", None, (lambda t=t: setattr(t, "interfaces", [])), (lambda t=t, ifs=ifs: setattr(t, "interfaces", ifs))))
+        edits.append(("interfaces_dup", "dupInterface", (lambda t=t, ifs=ifs: setattr(t, "interfaces", ifs + ifs[:1])),
+                      (lambda t=t, ifs=ifs: setattr(t, "interfaces", ifs))))
+    for t in s.types.values():
+        if isinstance(t, UnionType):
+            old = list(t.types)
+            enum = next((x for x in s.types.values() if isinstance(x, EnumType) and not x.name.startswith("__")), None)
+            edits.append(("union_clear", "unionEmpty", (lambda t=t: setattr(t, "types", [])), (lambda t=t, old=old: setattr(t, "types", old))))
+            if enum is not None:
+                edits.append(("union_add_enum", "unionMemberNotObject", (lambda t=t, old=old, enum=enum: setattr(t, "types", old + [enum])),
+                              (lambda t=t, old=old: setattr(t, "types", old))))
+            break
+    for t in s.types.values():
+        if isinstance(t, EnumType) and not t.name.startswith("__"):
+            old = list(t.values)
+            edits.append(("enum_values_clear", "enumEmpty", (lambda t=t: setattr(t, "values", [])), (lambda t=t, old=old: setattr(t, "values", old))))
+            break
+    return edits
+
+
+def fresh_schema_over(s):
+    """A new Schema object over the SAME type objects (what a user does after editing types in place)."""
+    from py_gql.schema import Schema, SPECIFIED_DIRECTIVES, is_introspection_type
+    from py_gql.schema.scalars import SPECIFIED_SCALAR_TYPES
+    types = [t for t in s.types.values() if t not in SPECIFIED_SCALAR_TYPES and not is_introspection_type(t)]
+    dirs = [d for d in s.directives.values() if d not in SPECIFIED_DIRECTIVES]
+    n = Schema(query_type=s.query_type, mutation_type=s.mutation_type, subscription_type=s.subscription_type, types=types, directives=dirs)
+    n.default_resolver = s.default_resolver
+    return n
+
+
+def stream_setter_edits(ctx, batch):
+    """validate -> edit through a public setter -> (replace request | fresh Schema over the same objects) -> validate:
+    the second verdict is that of the CURRENT description (labels + model on the current dump); undo -> valid again."""
+    from py_gql.exc import GraphQLError
+    rng = ctx.rng
+    done = 0
+    for i in range(ctx.n(20, 120)):
+        if ctx.time_left() < 12:
+            break
+        d0 = add_resolvers(rng, add_arg_cluster(base_schema(rng, rng.choice([0, 0, 1]), cluster=rng.random() < 0.5)), p=0.15)
+        s = try_build(ctx, build_code, d0)
+        if s is None:
+            continue
+        v0, e0 = check_schema(ctx, batch, s, [], "code", {"stream": "setter-source"}, desc=d0)
+        if v0 != "valid":
+            continue
+        try:
+            s.validate()
+        except GraphQLError:
+            continue
+        edits = setter_edits(rng, s)
+        rng.shuffle(edits)
+        consumed = False
+        for name, rule, apply, undo in edits[:ctx.n(5, 8)]:
+            if consumed:
+                break
+            # a replace request sends the schema through fix_type_references (type objects are rebuilt): it is used
+            # for the edit phase only and ends the use of this schema; `enum.values` is a plain attribute (the
+            # rebuilt enum comes from its private index), so that edit is only followed by a fresh Schema
+            reset = "replace" if (rng.random() < 0.3 and name != "enum_values_clear") else "fresh"
+            for phase, fn, labels in (("edit", apply, [("setter:" + name, rule)]), ("undo", undo, [])):
+                try:
+                    fn()
+                except Exception as exc:  # noqa  (constructors refusing the edit)
+                    ctx.stat("setter-refused:%s:%s" % (name, type(exc).__name__))
+                    consumed = True
+                    break
+                info = {"stream": "setter", "edit": name, "phase": phase, "reset": reset}
+                try:
+                    if reset == "fresh":
+                        cur = fresh_schema_over(s)
+                    else:
+                        cur = s
+                        consumed = True
+                        victim = rng.choice([t for t in s.types.values() if not t.name.startswith("__") and t.name not in gs.SCALARS])
+                        s._replace_types_and_directives({victim.name: copy.copy(victim)})
+                except GraphQLError as exc:
+                    ctx.stat("setter-reset-refused:%s" % type(exc).__name__)
+                    break
+                except Exception as exc:  # noqa
+                    ctx.stat("setter-reset-internal:%s" % type(exc).__name__)
+                    consumed = True
+                    break
+                done += 1
+                ctx.stat("setter:%s:%s:%s" % (name, phase, reset))
+                v, e = check_schema(ctx, batch, cur, labels, "setter", info, desc=d0)
+                # Schema.validate() must agree with the fresh verdict once the cache was reset
+                try:
+                    cur.validate()
+                    cached = "valid"
+                except GraphQLError:
+                    cached = "invalid"
+                if cached != v and not v.startswith("internal"):
+                    ctx.fail("stale-verdict-after:setter-edit+%s" % reset, "validate() disagrees with a fresh validation after the verdict cache was reset",
+                             {"how": "setter", "desc": d0, "edit": name, "phase": phase, "reset": reset, "validate": cached, "fresh": v})
+                if reset == "replace":
+                    break
+    ctx.extra["setter_edit_cases"] = done
+
 # ---- E: cache histories -------------------------------------------------------------------------
 
 def gen_history(rng, desc, length):
@@ -1643,6 +1925,8 @@ def run(ctx):
     corpus_cases(ctx, batch)
     stream_subtype_and_names(ctx, batch)
     stream_shared_resolvers(ctx, batch)
+    stream_derived(ctx, batch)
+    stream_setter_edits(ctx, batch)
     stream_every_position(ctx, batch)
     stream_permutations(ctx, batch)
     stream_histories(ctx, batch)
@@ -1689,6 +1973,79 @@ def replay(ctx, data):
         s = (build_code if inp.get("builder") == "build_code" else build_sdl)(desc)
         trace, _ = run_history_real(s, inp["ops"])
         return not any(o["op"] == "validate" and t["outcome"] == "ok" and t["fresh_valid"] is False for o, t in zip(inp["ops"], trace))
+    if "label" in inp and isinstance(inp.get("input"), dict) and inp["input"].get("how") == "later":
+        d = inp["input"]
+        b = build_code if d.get("builder") == "build_code" else build_sdl
+        src = b(_to_tuples(d["desc"]))
+        k1 = verdict_key(*real_validate(src))
+        try:
+            src.validate()
+        except Exception:  # noqa
+            pass
+        ders = []
+        for w in ("clone", "transform", "clone-of-clone", "extend"):
+            try:
+                ders.append((w, derive(w, src)))
+            except Exception:  # noqa
+                pass
+        firsts = [(w, verdict_key(*real_validate(x))) for w, x in ders]
+        ok = verdict_key(*real_validate(src)) == k1
+        return ok and all(verdict_key(*real_validate(x)) == k for (w, x), (_, k) in zip(ders, firsts))
+    if how == "derived" or how.startswith("derived:"):
+        what = (inp.get("what") or inp.get("info", {}).get("what", "clone"))
+        bname = inp.get("builder") or inp.get("info", {}).get("builder")
+        b = build_code if bname == "build_code" else build_sdl
+        src = b(desc)
+        src_key = verdict_key(*real_validate(src))
+        try:
+            src.validate()
+        except Exception:  # noqa
+            pass
+        w = what.split(":")[0]
+        der = derive(w, src)
+        if what.endswith(":source"):
+            return verdict_key(*real_validate(src)) == src_key
+        v, e = real_validate(der)
+        if how.startswith("derived:"):
+            return failure_class(v, e, [tuple(l) for l in inp.get("labels", [])]) is None
+        if w == "extend":
+            from py_gql import build_schema
+            return verdict_key(v, e) == verdict_key(*real_validate(build_schema(gs.to_sdl(desc, descriptions=False) + EXTENSION_SDL)))
+        return verdict_key(v, e) == src_key
+    if how == "setter":
+        import random
+        edit = inp.get("edit") or inp.get("info", {}).get("edit")
+        for reset in ("fresh", "replace"):
+            if reset == "replace" and edit == "enum_values_clear":
+                continue
+            src = build_code(desc)
+            src.validate()
+            for name, rule, apply, undo in setter_edits(random.Random(0), src):
+                if name != edit:
+                    continue
+                for fn, labels in ((apply, [("setter:" + name, rule)]), (undo, [])):
+                    fn()
+                    if reset == "fresh":
+                        cur = fresh_schema_over(src)
+                    else:
+                        cur = src
+                        victim = [t for t in src.types.values() if not t.name.startswith("__") and t.name not in gs.SCALARS][0]
+                        src._replace_types_and_directives({victim.name: copy.copy(victim)})
+                    v, e = real_validate(cur)
+                    if failure_class(v, e, labels) is not None:
+                        return False
+                    try:
+                        cur.validate()
+                        cached = "valid"
+                    except Exception:  # noqa
+                        cached = "invalid"
+                    if cached != v:
+                        return False
+                    if reset == "replace":
+                        break
+                if reset == "replace":
+                    break
+        return True
     if how == "shared-order":
         va, ea = real_validate(build_code(_to_tuples(inp["desc_a"])))
         vb, eb = real_validate(build_code(_to_tuples(inp["desc_b"])))
